@@ -718,8 +718,9 @@ Section Mix.
         apply bind_ok in Hfl. destruct Hfl as (rest & Hrest & Hfl). inversion Hfl.
         specialize (IH Hf rest Hrest). destruct k; auto. constructor; eauto. }
     clear -Hm Hobj. apply mapM_ok_Forall2 in Hm.
-    induction Hm as [|x y f o Hxy _ IH]; [reflexivity|].
-    inversion Hobj as [|? ? (kv & ->) Hobj']; subst.
+    remember (mk_env rec call join ctx s f) as E eqn:HE. clear HE.
+    induction Hm as [|x y f' o' Hxy _ IH]; [reflexivity|].
+    inversion Hobj as [|? ? Hx Hobj']; subst. destruct Hx as (kv & ->).
     cbn [project_row] in Hxy. apply bind_ok in Hxy. destruct Hxy as (r & _ & Hxy). inversion Hxy.
     cbn [flat forallb is_arr negb andb]. apply IH. exact Hobj'.
   Qed.
@@ -738,8 +739,8 @@ Section Mix.
     forall src out, nested_result direct src out -> concat_result direct src (leaves out).
   Proof.
     intros Hd. fix IH 3. intros src out H. destruct H as [rows out Hf Hdir | inners outs Hall].
-    - destruct (Hd _ _ Hf Hdir) as (o & -> & Ho). rewrite leaves_flat by auto. constructor; auto.
-    - rewrite leaves_outs. constructor.
+    - destruct (Hd _ _ Hf Hdir) as (o & -> & Ho). rewrite leaves_flat by auto. apply cr_flat; auto.
+    - rewrite leaves_outs. apply cr_deep.
       revert inners outs Hall. fix IHl 3. intros inners outs Hall.
       destruct Hall as [|i o inners outs Hio Hrest]; cbn [map]; constructor.
       + apply IH. exact Hio.
@@ -751,8 +752,8 @@ Section Mix.
     forall src o, concat_result d1 src o -> concat_result d2 src o.
   Proof.
     intros Hd. fix IH 3. intros src o H. destruct H as [rows o Hf Hdir | inners os Hall].
-    - constructor; auto.
-    - constructor.
+    - apply cr_flat; auto.
+    - apply cr_deep.
       revert inners os Hall. fix IHl 3. intros inners os Hall.
       destruct Hall as [|i o inners os Hio Hrest]; constructor.
       + apply IH. exact Hio.
@@ -856,3 +857,56 @@ Proof.
   change (mk_env rec call join ctx (with_from f s)) with (mk_env rec call join ctx s).
   rewrite Hfr. reflexivity.
 Qed.
+
+(* ================================================================== *)
+(* 8. the two SQL statements, end to end                                *)
+(* ================================================================== *)
+
+Section EndToEnd.
+  Variable call : string -> string -> list value -> row -> res raw.
+  Variable join : jointype -> jstrategy -> list value -> list value -> string -> string ->
+                  expr stmt -> row -> res (list value).
+
+  (* "for every sufficiently large fuel, the statement evaluates to [out]" *)
+  Definition stmt_converges (ctx : qctx) (q : stmt) (out : value) : Prop :=
+    exists m0, forall m, (m0 <= m)%nat -> exec call join m ctx (JStmt q) = Ok out.
+
+  Lemma converges_with_from ctx s f rows out :
+    flat rows = true ->
+    converges call join ctx s rows out -> converges call join ctx (with_from f s) rows out.
+  Proof.
+    intros Hf (m0 & H). exists (S m0). intros m Hm. destruct m as [|m]; [lia|].
+    rewrite exec_rows, run_flat_from_irrelevant by auto. rewrite <- exec_rows. apply H. lia.
+  Qed.
+
+  (*   SELECT items FROM path WHERE w          returns [out], the nested result, and
+       SELECT items FROM mix=>path WHERE w     returns the leaves of [out]: the inner results
+     concatenated — for every document whose [path] holds arrays nested to any depth *)
+  Theorem nested_and_mix_statements ctx s k rest src out :
+    simple s = true -> plain_query s = true ->
+    s_with s = [] -> s_from s = FTable (k :: rest) "" ->
+    cte_lookup k (c_ctes ctx) = None ->
+    reader (k :: rest) (VObj (c_data ctx)) = Ok (VArr src) ->
+    nested_result (converges call join ctx s) src out ->
+    stmt_converges ctx (SSelect s) out /\
+    stmt_converges ctx (SSelect (with_from (FTableFn "mix" (k :: rest) "") s)) (VArr (leaves out)).
+  Proof.
+    intros Hs Hp Hw Hf Hc Hr Hn.
+    destruct (mix_is_flattened_nested call join ctx s Hs Hp src out Hn) as [(m1 & H1) _].
+    split.
+    - exists (S m1). intros m Hm. destruct m as [|m]; [lia|]. cbn [exec].
+      rewrite (select_from_table _ _ _ ctx s k rest src Hw Hf Hc Hr).
+      change (exec call join (S m) ctx (JRows s src) = Ok out). apply H1. lia.
+    - set (s' := with_from (FTableFn "mix" (k :: rest) "") s).
+      assert (Hc' : concat_result (converges call join ctx s') src (leaves out)).
+      { eapply concat_result_impl.
+        - intros rows o Hfl Hcv. apply converges_with_from; [exact Hfl | exact Hcv].
+        - apply nested_then_leaves; auto.
+          intros rows o Hfl Hcv. eapply converges_flat_out; eauto. }
+      destruct (mix_concat call join ctx s' Hs Hp src (leaves out) Hc') as (m2 & H2).
+      exists (S m2). intros m Hm. destruct m as [|m]; [lia|]. cbn [exec].
+      rewrite (select_from_mix _ _ _ ctx s' (k :: rest) src Hw eq_refl Hr).
+      change (exec call join (S m) ctx (JRows s' (mix_array (VArr src))) = Ok (VArr (leaves out))).
+      apply H2. lia.
+  Qed.
+End EndToEnd.
